@@ -22,13 +22,20 @@ import (
 const testP = "TestCoreTxProofs"
 
 func (w *world) checkServedProof(t *rapid.T, via string, rt *ctypes.ResultTx, tr txRef) {
+	// The same bytes may be on the chain more than once (the index keeps the last occurrence): the answer must name A
+	// position where the chain has the tx, and everything else is judged for THAT position.
+	ab, ok := w.chain.Blocks[rt.Height]
+	if !ok || int(rt.Index) >= len(ab.Txs) || !bytes.Equal(ab.Txs[rt.Index], tr.Tx) || !bytes.Equal(rt.Tx, tr.Tx) || !bytes.Equal(rt.Hash, sha(tr.Tx)) {
+		t.Fatalf("%s for tx %q (at %d/%d): answer describes another tx: height %d index %d tx %q", via, tr.Tx, tr.Height, tr.Index, rt.Height, rt.Index, rt.Tx)
+	}
+	if rt.Height != tr.Height || int(rt.Index) != tr.Index {
+		lib.Class(testP, "answer-names-another-occurrence")
+		tr = txRef{Height: rt.Height, Index: int(rt.Index), Tx: tr.Tx}
+	}
 	b := w.chain.Blocks[tr.Height]
 	n := len(b.Txs)
 	where := fmt.Sprintf("%s: tx %d/%d of block %d", via, tr.Index, n, tr.Height)
 	lib.Case(testP, lib.FP(via, tr.Index, n, tr.Height-w.init), n > 1, "served:"+via, fmt.Sprintf("block-txs:%d", n))
-	if rt.Height != tr.Height || int(rt.Index) != tr.Index || !bytes.Equal(rt.Tx, tr.Tx) || !bytes.Equal(rt.Hash, sha(tr.Tx)) {
-		t.Fatalf("%s: answer describes another tx: height %d index %d tx %q", where, rt.Height, rt.Index, rt.Tx)
-	}
 	if err := rt.Proof.Validate(b.DataHash); err != nil {
 		t.Fatalf("%s: served proof does not validate against the block's data hash: %v (proof index %d total %d)", where, err,
 			rt.Proof.Proof.Index, rt.Proof.Proof.Total)
@@ -76,6 +83,9 @@ func TestCoreTxProofs(t *testing.T) {
 			got := 0
 			for page := 1; got < n; page++ {
 				rs, err := w.core.TxSearch(bg, fmt.Sprintf("tx.height=%d", h), true, ip(page), ip(perPage), order)
+				if err != nil && page > 1 {
+					break // fewer records than txs (one record per hash): page beyond the last one
+				}
 				if err != nil {
 					t.Fatalf("rpc/core.TxSearch(tx.height=%d, page %d): %v", h, page, err)
 				}
@@ -83,10 +93,24 @@ func TestCoreTxProofs(t *testing.T) {
 					break
 				}
 				for _, rt := range rs.Txs {
-					if rt.Height != h || int(rt.Index) >= n {
-						t.Fatalf("TxSearch(tx.height=%d) returned a tx at height %d index %d", h, rt.Height, rt.Index)
+					ab, ok := w.chain.Blocks[rt.Height]
+					if !ok || int(rt.Index) >= len(ab.Txs) {
+						t.Fatalf("TxSearch(tx.height=%d) returned a tx at height %d index %d that the chain does not have", h, rt.Height, rt.Index)
 					}
-					w.checkServedProof(t, "TxSearch", rt, txRef{Height: h, Index: int(rt.Index), Tx: w.chain.Blocks[h].Txs[rt.Index]})
+					if rt.Height != h {
+						// a tx included again in a later block: the index keeps one record per hash (the later one) but the
+						// height key of the earlier inclusion still leads to it. Search semantics are property C19's; here
+						// only: the same bytes must really be in block h too, and the proof is judged at the answer's height.
+						again := false
+						for _, tx := range w.chain.Blocks[h].Txs {
+							again = again || bytes.Equal(tx, ab.Txs[rt.Index])
+						}
+						if !again {
+							t.Fatalf("TxSearch(tx.height=%d) returned a tx at height %d index %d that is not in block %d", h, rt.Height, rt.Index, h)
+						}
+						lib.Class(testP, "search-by-height-returned-later-inclusion")
+					}
+					w.checkServedProof(t, "TxSearch", rt, txRef{Height: rt.Height, Index: int(rt.Index), Tx: ab.Txs[rt.Index]})
 					got++
 					seen++
 				}
